@@ -18,7 +18,8 @@
        SIZE, ADD, SUB, MUL, NEG, ABS, ISNAT, INT, EDIV (int/nat), COMPARE, EQ..GE, AND/OR/XOR/NOT (bool),
        CONCAT (strings), FAILWITH
      stage 2a: bytes (CONCAT, SIZE, SLICE, COMPARE), SLICE on strings, AND/OR/XOR/NOT on nat/int, LSL/LSR
-     later stages: sets/maps, mutez/timestamp arithmetic, PAIR n/UNPAIR n/GET n/UPDATE n,
+     stage 2b: PAIR n / UNPAIR n / GET k / UPDATE k (GET 0 / UPDATE 0 only on pairs: pytezos rejects other operands)
+     later stages: sets/maps, mutez/timestamp arithmetic,
        LAMBDA/EXEC/APPLY, environment instructions, PACK/UNPACK, hashes. *)
 From Coq Require Import List ZArith NArith Bool Arith.
 From Coq.Strings Require Import Byte.
@@ -76,6 +77,8 @@ Inductive instr : Type :=
 | I_ITER (c : instr)
 | I_MAP (c : instr)
 | I_PAIR | I_UNPAIR | I_CAR | I_CDR
+| I_PAIRN (n : nat) | I_UNPAIRN (n : nat)   (* PAIR n / UNPAIR n, n >= 2 *)
+| I_GETN (k : nat) | I_UPDATEN (k : nat)    (* GET k / UPDATE k on right combs *)
 | I_LEFT (t : ty) | I_RIGHT (t : ty)
 | I_SOME | I_NONE (t : ty) | I_UNIT
 | I_NIL (t : ty) | I_CONS | I_SIZE
@@ -146,6 +149,58 @@ Fixpoint value_of_data (d : data) : value :=
   | DLeft x => VLeft (value_of_data x)
   | DRight x => VRight (value_of_data x)
   | DList l => VList (map value_of_data l)
+  end.
+
+(* ---- right combs: (a1, (a2, ... an)) ---- *)
+Fixpoint ty_comb (l : list ty) : option ty :=
+  match l with
+  | [] => None
+  | [t] => Some t
+  | t :: r => option_map (TPair t) (ty_comb r)
+  end.
+Fixpoint v_comb (l : list value) : option value :=
+  match l with
+  | [] => None
+  | [v] => Some v
+  | v :: r => option_map (VPair v) (v_comb r)
+  end.
+(* split a right comb into n >= 1 components *)
+Fixpoint ty_uncomb (n : nat) (t : ty) : option (list ty) :=
+  match n with
+  | 0 => None
+  | 1 => Some [t]
+  | S m => match t with TPair a b => option_map (cons a) (ty_uncomb m b) | _ => None end
+  end.
+Fixpoint v_uncomb (n : nat) (v : value) : option (list value) :=
+  match n with
+  | 0 => None
+  | 1 => Some [v]
+  | S m => match v with VPair a b => option_map (cons a) (v_uncomb m b) | _ => None end
+  end.
+(* GET k: 0 = the whole, 2i+1 = i-th component, 2i = what remains after i components *)
+Fixpoint ty_get_n (k : nat) (t : ty) : option ty :=
+  match k with
+  | 0 => Some t
+  | 1 => match t with TPair a _ => Some a | _ => None end
+  | S (S k') => match t with TPair _ b => ty_get_n k' b | _ => None end
+  end.
+Fixpoint v_get_n (k : nat) (v : value) : option value :=
+  match k with
+  | 0 => Some v
+  | 1 => match v with VPair a _ => Some a | _ => None end
+  | S (S k') => match v with VPair _ b => v_get_n k' b | _ => None end
+  end.
+Fixpoint ty_update_n (k : nat) (x t : ty) : option ty :=
+  match k with
+  | 0 => Some x
+  | 1 => match t with TPair _ b => Some (TPair x b) | _ => None end
+  | S (S k') => match t with TPair a b => option_map (TPair a) (ty_update_n k' x b) | _ => None end
+  end.
+Fixpoint v_update_n (k : nat) (x v : value) : option value :=
+  match k with
+  | 0 => Some x
+  | 1 => match v with VPair _ b => Some (VPair x b) | _ => None end
+  | S (S k') => match v with VPair a b => option_map (VPair a) (v_update_n k' x b) | _ => None end
   end.
 
 (* typing of literals (Michelson's parse_data restricted to the fragment) *)
